@@ -250,6 +250,33 @@ def execute(case):
     return {"ok": not fails, "failures": fails, "outcome": f"{producer}:{'ok' if not fails else fails[0]['sig']['kind']}", "nontrivial": True, "poison_visible": poisoned_visible}
 
 
+def execute_locale(case):
+    """the same scenario in a fresh interpreter whose locale encoding is ASCII (LC_ALL=C, UTF-8 mode and locale coercion off):
+    index files are read and written with the locale's encoding unless the library says otherwise"""
+    import json
+    import os
+    import subprocess
+    import sys
+
+    e = {**os.environ, "LC_ALL": "C", "LANG": "C", "PYTHONUTF8": "0", "PYTHONCOERCECLOCALE": "0", "PYTHONPATH": str(env.VERIF), "PYTHONIOENCODING": "utf-8"}
+    e.pop("XDG_CACHE_HOME", None)
+    code = "import json,sys,locale; from mc.checks import c07; case=json.loads(sys.argv[1]); out=c07.execute(case); out['encoding']=locale.getpreferredencoding(False); print('RESULT'+json.dumps(out, default=repr))"
+    inner = {k: v for k, v in case.items() if k != "fn"}
+    r = subprocess.run([sys.executable, "-c", code, json.dumps(inner)], capture_output=True, text=True, cwd=str(env.VERIF), env=e, timeout=600)
+    line = next((l for l in r.stdout.splitlines() if l.startswith("RESULT")), None)
+    if line is None:
+        raise core.HarnessError(f"locale leg produced no result: {r.stderr[-600:]}")
+    out = json.loads(line[len("RESULT") :])
+    if out.get("encoding", "").lower().replace("-", "") in ("utf8",):
+        raise core.HarnessError(f"the C locale leg ran with locale encoding {out.get('encoding')}")
+    for f in out.get("failures", []):
+        f["detail"] = f"[locale encoding {out.get('encoding')}] {f['detail']}"
+        f["case"] = case
+        f["sig"] = {**f["sig"], "locale": "C"}
+    out["outcome"] = "C-locale:" + str(out.get("outcome"))
+    return out
+
+
 def plan(tier):
     cases = []
     levels = ("1.1", "1.5")
@@ -274,7 +301,7 @@ def run(res, tier, seed):
     res.rule = (
         "configurations = level {1.1 two ScanSAR images, 1.5 two polarisations} x producer {none, open option, CLI adjacent, CLI into"
         " user-cache dir, option+CLI} x filesystem {mcfs+storage_options, local path, file://, memory://} x rpc_write {1,2,4096} x"
-        " rpc_read {1,3,1024}, plus per-line values {identical on all lines, drifting by one unit per line, piecewise constant over 22..23 lines} x producer x {mcfs, local};" " each configuration = produce caches, uncached open,"
+        " rpc_read {1,3,1024}, plus per-line values {identical on all lines, drifting by one unit per line, piecewise constant over 22..23 lines} x producer x {mcfs, local};" " 16 configurations again in an interpreter whose locale encoding is ASCII;" " each configuration = produce caches, uncached open,"
         " cached open, full loads, poisoned-index opens; states = configurations, transitions = opens executed."
     )
     res.assumptions = ["I/O on memory:// cannot be observed (only tree equality is checked there)", "the adjacent index of a non-local product is produced by the CLI on a local copy and uploaded (documented workflow)"]
@@ -282,6 +309,9 @@ def run(res, tier, seed):
     for idx, case, out in core.pool_map(__name__, "execute", plan(tier), chunksize=1):
         res.record(case, out, order=idx)
         n_poison += bool(out.get("poison_visible"))
+    loc = [{"fn": "execute_locale", "level": level, "producer": producer, "fs": fs, "rpc_w": 2, "rpc_r": 3, "tag": f"loc{i}"} for i, (level, producer, fs) in enumerate((lv, pr, f) for lv in ("1.1", "1.5") for pr in ("option", "cli-adjacent", "cli-target", "both") for f in ("mcfs", "local"))]
+    for idx, case, out in core.pool_map(__name__, "execute_locale", loc, chunksize=1):
+        res.record(case, out, order=10**6 + idx)
     res.states = res.evaluations
     res.transitions = res.evaluations * 5
     res.traces = res.evaluations
